@@ -659,6 +659,170 @@ def perm_batches(seqs, per_batch, ns_prefix):
 
 
 # ---------------------------------------------------------------------------------------------
+# deterministic coverage grid: every member kind of the property statement x every nesting context.
+# The random stream reaches all of this only with some probability per run; the grid makes each
+# (kind, context) cell certain in every run, independent of the seed.
+ENUM_BOUNDS = [
+    [0], [127], [128], [255], [256], [32767], [32768], [65535], [65536], [INT32_MAX], [2 ** 31], [UINT32_MAX],
+    [-1], [-127], [-128], [-129], [-32768], [-32769], [-40000], [INT32_MIN], [INT32_MIN, INT32_MAX],
+    [-1, 127], [-1, 128], [-1, 255], [-1, 256], [-1, 32767], [-1, 32768], [-1, 65535], [-1, 65536], [-1, INT32_MAX],
+    [-128, 127], [-129, 127], [-128, 128], [-32768, 32767], [-32769, 32767], [-32768, 32768], [-40000, 1], [-40000, 40000],
+    [INT32_MIN, 0], [INT32_MIN + 1, INT32_MAX - 1], [1, 2, 4, 2 ** 31], [UINT32_MAX - 1, UINT32_MAX],
+    # the known defect class (negative together with > G_MAXINT), at its own boundaries
+    [-1, 2 ** 31], [-1, UINT32_MAX], [INT32_MIN, 2 ** 31], [INT32_MIN, UINT32_MAX],
+    # outside the typelib format: model correspondence only
+    [2 ** 32], [-2 ** 31 - 1],
+]
+
+
+def _b(n):
+    return {'k': 'basic', 'n': n}
+
+
+def _arr(n, of):
+    return {'k': 'array', 'n': n, 'of': of}
+
+
+def _iv(name):
+    return {'k': 'iface', 'name': name}
+
+
+# helper types of every grid namespace: size != alignment on purpose (an array whose alignment were
+# taken from the element SIZE, or a size-1 array laid out as a pointer, must show)
+GRID_HELPERS = [
+    {'d': 'callback', 'name': 'Cb'},
+    {'d': 'alias', 'name': 'Al', 'target': 'gint16'},
+    {'d': 'enum', 'name': 'Eu', 'values': [1, 2 ** 31]},
+    {'d': 'enum', 'name': 'En', 'values': [-1, 5]},
+    {'d': 'flags', 'name': 'Fl', 'values': [1, 2, 4]},
+    {'d': 'struct', 'name': 'P3', 'members': [{'name': 'a', 't': _arr(3, _b('gint8'))}]},                  # 3 / 1
+    {'d': 'struct', 'name': 'P16', 'members': [{'name': 'd', 't': _b('gdouble')}, {'name': 'c', 't': _b('gint8')}]},  # 16 / 8
+    {'d': 'struct', 'name': 'P6', 'members': [{'name': 'h', 't': _b('gint16')}, {'name': 'b', 't': _arr(3, _b('gint8'))}]},  # 6 / 2
+    {'d': 'struct', 'name': 'PE', 'members': []},                                                          # 0 / 1
+    {'d': 'union', 'name': 'PU', 'members': [{'name': 'a', 't': _arr(5, _b('gint8'))}, {'name': 'i', 't': _b('gint32')}]},  # 8 / 4
+    {'d': 'union', 'name': 'PU3', 'members': [{'name': 'a', 't': _arr(3, _b('gint8'))}]},                   # 3 / 1
+    {'d': 'object', 'name': 'PO', 'members': [{'name': 'p', 't': {'k': 'ptr', 'to': 'void'}}, {'name': 'c', 't': _b('gint8')}]},
+    {'d': 'boxed', 'name': 'PB', 'members': [{'name': 'i', 't': _b('gint32')}, {'name': 'c', 't': _arr(2, _b('gint8'))}]},  # 8 / 4
+    {'d': 'alias', 'name': 'AlS', 'target': 'P6'},
+]
+
+# (label, member type, deep).  deep kinds go through every nesting context, the others through the
+# depth-0/1 contexts only.
+GRID_KINDS = (
+    [('basic-' + n, _b(n), n in ('gint8', 'gint16', 'gint32', 'gint64', 'gfloat', 'gdouble', 'glong', 'gboolean', 'gsize'))
+     for n in BASIC_VALUE] +
+    [('ptr-' + to.replace(':', '-'), {'k': 'ptr', 'to': to}, to in ('void', 'type:P3'))
+     for to in ('void', 'utf8', 'filename', 'basic:gint32', 'basic:guint8', 'glist', 'type:P3', 'type:PU', 'type:Eu', 'type:Cb')] +
+    [('lenarray', {'k': 'lenarray', 'of': 'guint8'}, False),
+     ('enum-u32', _iv('Eu'), True), ('enum-neg', _iv('En'), True), ('flags', _iv('Fl'), True),
+     ('callback-inline', {'k': 'cb'}, True), ('callback-typedef', _iv('Cb'), True),
+     ('alias-basic', _b('Al'), True), ('alias-struct', _iv('AlS'), True),
+     ('struct-3/1', _iv('P3'), True), ('struct-16/8', _iv('P16'), True), ('struct-6/2', _iv('P6'), False),
+     ('struct-empty', _iv('PE'), True), ('union-8/4', _iv('PU'), True), ('union-3/1', _iv('PU3'), True),
+     ('object-by-value', _iv('PO'), True), ('boxed-by-value', _iv('PB'), True),
+     # arrays: length 0 / 1 / n of every element sort
+     ('array0-gint8', _arr(0, _b('gint8')), True), ('array0-gint64', _arr(0, _b('gint64')), True),
+     ('array0-gdouble', _arr(0, _b('gdouble')), False), ('array0-gint16', _arr(0, _b('gint16')), False),
+     ('array1-gint8', _arr(1, _b('gint8')), True), ('array1-gint16', _arr(1, _b('gint16')), True),
+     ('array1-gint32', _arr(1, _b('gint32')), False), ('array1-gint64', _arr(1, _b('gint64')), False),
+     ('array3-gint16', _arr(3, _b('gint16')), True), ('array7-gint8', _arr(7, _b('gint8')), False),
+     ('array2-gdouble', _arr(2, _b('gdouble')), False), ('array100-gint32', _arr(100, _b('gint32')), False),
+     ('array0-struct-16/8', _arr(0, _iv('P16')), True), ('array1-struct-16/8', _arr(1, _iv('P16')), True),
+     ('array2-struct-16/8', _arr(2, _iv('P16')), True), ('array3-struct-3/1', _arr(3, _iv('P3')), True),
+     ('array1-struct-3/1', _arr(1, _iv('P3')), True), ('array0-struct-3/1', _arr(0, _iv('P3')), False),
+     ('array2-struct-6/2', _arr(2, _iv('P6')), True), ('array2-struct-empty', _arr(2, _iv('PE')), False),
+     ('array2-union-8/4', _arr(2, _iv('PU')), True), ('array1-union-3/1', _arr(1, _iv('PU3')), True),
+     ('array0-union-8/4', _arr(0, _iv('PU')), False), ('array2-object', _arr(2, _iv('PO')), False),
+     ('array2-boxed', _arr(2, _iv('PB')), False),
+     ('array0-enum', _arr(0, _iv('Eu')), True), ('array1-enum', _arr(1, _iv('En')), True),
+     ('array3-enum', _arr(3, _iv('Eu')), True), ('array3-flags', _arr(3, _iv('Fl')), False),
+     ('array0-ptr', _arr(0, {'k': 'ptr', 'to': 'void'}), False), ('array1-ptr', _arr(1, {'k': 'ptr', 'to': 'utf8'}), True),
+     ('array3-ptr-type', _arr(3, {'k': 'ptr', 'to': 'type:P3'}), False),
+     ('array2-callback-typedef', _arr(2, _iv('Cb')), True), ('array1-callback-typedef', _arr(1, _iv('Cb')), False),
+     ('array3-alias', _arr(3, _b('Al')), False), ('array2-alias-struct', _arr(2, _iv('AlS')), False),
+     ('array2x3-gint16', _arr(2, _arr(3, _b('gint16'))), True), ('array1x1-gint8', _arr(1, _arr(1, _b('gint8'))), True),
+     ('array2x0-gint16', _arr(2, _arr(0, _b('gint16'))), False), ('array0x3-gint32', _arr(0, _arr(3, _b('gint32'))), False),
+     ('array3x1-struct-16/8', _arr(3, _arr(1, _iv('P16'))), False), ('array2x2x2-gint8', _arr(2, _arr(2, _arr(2, _b('gint8')))), False),
+     ])
+
+# nesting contexts, outermost first: S = struct { gint8; X; gint8 }, U = union { gint16; X },
+# A = struct { gint8; X[2]; gint8 } (array of X).  X is the next context, or the member kind itself
+# for the innermost letter.
+def grid_contexts(max_depth):
+    ctxs = []
+    for L in range(1, max_depth + 1):
+        ctxs.extend(''.join(p) for p in itertools.product('SU', repeat=L))
+    ctxs += ['A', 'SA', 'UA', 'AS', 'AU', 'SAU', 'UAS', 'AAS']
+    if max_depth >= 4:
+        ctxs += ['SUAS', 'UASU']
+    return ctxs
+
+
+def grid_batches(max_depth, per_ns=6):
+    """one namespace per `per_ns` kinds; returns (batches, cells) where cells maps the name of the
+    outermost declaration of a cell to (kind label, context)"""
+    deep_ctx = grid_contexts(max_depth)
+    shallow_ctx = grid_contexts(2)[:6] + ['A', 'UA', 'AS', 'AU']
+    batches = []
+    for i in range(0, len(GRID_KINDS), per_ns):
+        decls = [dict(h) for h in GRID_HELPERS]
+        n = 0
+        for label, t, deep in GRID_KINDS[i:i + per_ns]:
+            made = {}                     # context suffix -> declaration name (shared between contexts)
+
+            def build(ctxs):
+                """declaration holding `t` in nesting context `ctxs` (outermost first)"""
+                nonlocal n
+                if ctxs in made:
+                    return made[ctxs]
+                n += 1
+                c = ctxs[0]
+                if len(ctxs) == 1:
+                    if c == 'U' and t['k'] == 'cb':
+                        return None       # inline callback in a union: pending finding, own stream
+                    inner = t
+                else:
+                    sub = build(ctxs[1:])
+                    if sub is None:
+                        return None
+                    inner = _iv(sub)
+                if c == 'A':
+                    if inner['k'] == 'cb':
+                        return None       # an inline callback cannot be an array element
+                    inner = _arr(2, inner)
+                name = '%s%d' % ('U' if c == 'U' else 'S', n)
+                if c == 'U':
+                    d = {'d': 'union', 'name': name, 'members': [{'name': 'a', 't': _b('gint16')}, {'name': 'm', 't': inner}]}
+                else:
+                    d = {'d': 'struct', 'name': name, 'members': [{'name': 'a', 't': _b('gint8')}, {'name': 'm', 't': inner},
+                                                                   {'name': 'b', 't': _b('gint8')}]}
+                d['grid'] = (label, ctxs)
+                decls.append(d)
+                made[ctxs] = name
+                return name
+            for c in (deep_ctx if deep else shallow_ctx):
+                build(c)
+        batches.append(Batch('G%d' % len(batches), decls))
+    # the enumerations at the boundaries of every storage class: judged themselves, and as members
+    decls = []
+    for j, vs in enumerate(ENUM_BOUNDS):
+        for el in ('enum', 'flags'):
+            if el == 'flags' and j % 3:
+                continue
+            en = '%s%d' % ('E' if el == 'enum' else 'F', j)
+            decls.append({'d': el, 'name': en, 'values': list(vs), 'cls': 'bound'})
+            lab = 'enum-bound:' + ','.join(str(v) for v in vs)
+            decls.append({'d': 'struct', 'name': 'S' + en, 'grid': (lab, 'S'),
+                          'members': [{'name': 'a', 't': _b('gint8')}, {'name': 'm', 't': _iv(en)}, {'name': 'b', 't': _b('gint8')}]})
+            decls.append({'d': 'union', 'name': 'U' + en, 'grid': (lab, 'U'),
+                          'members': [{'name': 'a', 't': _b('gint16')}, {'name': 'm', 't': _iv(en)}]})
+            decls.append({'d': 'struct', 'name': 'A' + en, 'grid': (lab, 'A'),
+                          'members': [{'name': 'a', 't': _b('gint8')}, {'name': 'm', 't': _arr(3, _iv(en))}]})
+    batches.append(Batch('GE', decls))
+    return batches
+
+
+# ---------------------------------------------------------------------------------------------
 # running the three sides
 class Runner(object):
     def __init__(self, ctx, compiler, dumper, basic):
@@ -674,6 +838,8 @@ class Runner(object):
         self.spec_bad = 0
         self.aborted_batches = 0
         self.n_tu = 0
+        self.grid_cells = {}           # (kind label, context) -> verdict of the statement oracle
+        self.path_memo = {}
 
     # (a)
     def compile_batch(self, b):
@@ -777,6 +943,8 @@ class Runner(object):
         ctx = self.ctx
         expected = any('abort' in fl for fl in flags.values())
         self.cnt.hit('%s:compiler-stopped:%s' % (label, 'expected' if expected else 'UNEXPECTED'))
+        if getattr(b, 'tag', None):
+            self.cnt.hit('unknown-size:%s:compiler-stopped' % b.tag)
         unioncb = [d for d in b.decls if d['d'] in ('union', 'boxed') and any(m['t']['k'] == 'cb' for m in d['members'])]
         if unioncb and not expected and 'Caught NULL node' in log:
             self.evals += 1
@@ -807,6 +975,10 @@ class Runner(object):
         if d['d'] in ('enum', 'flags'):
             self.cnt.case(['e', d['values']])
             self.cnt.hit('%s:enum:%s' % (label, d.get('cls', '?')))
+            for v in sorted(set(d['values']) & ENUM_EDGE_VALUES):
+                self.cnt.hit('enum-member-at-boundary:%d' % v)
+            if d['values'] and min(d['values']) < -32768:
+                self.cnt.hit('enum-member-at-boundary:negative-below--2^15')
             if mod is None or mod.get('storage') != im['storage']:
                 self.corr('enum %s values=%r: typelib storage tag %r, model %r' % (name, d['values'], im['storage'],
                                                                                  mod and mod.get('storage')), b, d)
@@ -835,6 +1007,8 @@ class Runner(object):
         self.cnt.hit('%s:%s:members=%d' % (label, d['d'], min(len(d['members']), 12)))
         for m in d['members']:
             self.cnt.hit('kind:' + kind_label(b, m['t']))
+            for lab in array_labels(m['t']):
+                self.cnt.hit(lab)
         field_members = [m for m in d['members'] if m['t']['k'] != 'barecb']
         got = {'size': im.get('size'), 'align': im.get('align'), 'offsets': [f[1] for f in im['fields']]}
         if [f[0] for f in im['fields']] != [m['name'] for m in field_members]:
@@ -878,6 +1052,8 @@ class Runner(object):
             # did write a typelib, the layout must be recorded as unknown
             if is_unknown_layout(d, got, field_members):
                 self.cnt.hit('%s:oracle:recorded-unknown' % label)
+                if getattr(b, 'tag', None):
+                    self.cnt.hit('unknown-size:%s:recorded-unknown' % b.tag)
             else:
                 ctx.report_failure('unknown-recorded-positive:' + key_of(b, d),
                                    '%s %s.%s has a member of unknown size but the typelib records size=%s align=%s offsets=%r'
@@ -897,7 +1073,16 @@ class Runner(object):
         unknown_kinds = fl & {'flex', 'nonintro_value', 'nonintro_ptr'}
         if got_cmp == want_cmp:
             self.cnt.hit('%s:oracle:equal-to-gcc%s' % (label, ':with-' + '+'.join(sorted(unknown_kinds)) if unknown_kinds else ''))
+            # what was judged (and agreed with gcc): nesting depth and container chains of this declaration
+            paths = nest_paths(b, d['name'], self.path_memo.setdefault(id(b), {}))
+            self.cnt.hit('judged:depth=%d' % max(len(p) for p in paths))
+            for p in set(q[:3] for q in paths if len(q) > 1):
+                self.cnt.hit('judged:nest:' + '>'.join(p))
+            if 'grid' in d:
+                self.grid_cells[tuple(d['grid'])] = 'equal-to-gcc'
             return
+        if 'grid' in d:
+            self.grid_cells[tuple(d['grid'])] = 'differs'
         if unknown_kinds and is_unknown_layout(d, got, field_members):
             self.cnt.hit('%s:oracle:recorded-unknown' % label)
             return
@@ -908,22 +1093,29 @@ class Runner(object):
         explained = mod is not None and mod.get('kind') in ('struct', 'union') and \
             mod['stored']['offsets'] == got['offsets'] and (d['d'] == 'object' or (mod['stored']['size'] == got['size']
                                                                                     and mod['stored']['align'] == got['align']))
+        key = None
         if explained and 'flex' in fl:
-            return ctx.report_failure(K_FLEX, what, rep)
-        if explained and 'nonintro_value' in fl:
-            return ctx.report_failure(K_NONINTRO, what, rep)
-        if explained and 'enum33' in fl:
-            return ctx.report_failure(K_ENUM, what, rep)
-        # K_OFF16: record, boxed, union or class (ObjectBlob stores no size/alignment, so there is nothing
-        # but the offsets to compare for a class).  Exactly: some field's TRUE offset is >= 65535, every
-        # field below 65535 is stored exactly, every field at or above it is stored modulo 2^16, and
-        # size / alignment (where stored) are right.  A wrong offset below 65535 never gets here.
-        size_align_right = d['d'] == 'object' or (got['size'] == want['size'] and got['align'] == want['align'])
-        if explained and max(want['offsets'] + [0]) >= 65535 and size_align_right \
-                and len(got['offsets']) == len(want['offsets']) \
-                and all(g == (w if w < 65535 else (w % 65536)) for g, w in zip(got['offsets'], want['offsets'])):
-            self.cnt.hit('%s:known:offset>=65535:%s' % (label, d['d']))
-            return ctx.report_failure(K_OFF16, what, rep)
+            key = K_FLEX
+        elif explained and 'nonintro_value' in fl:
+            key = K_NONINTRO
+        elif explained and 'enum33' in fl:
+            key = K_ENUM
+        else:
+            # K_OFF16: record, boxed or class (ObjectBlob stores no size/alignment, so for a class there is
+            # nothing but the offsets to compare; union members are all at 0).  Exactly: some field's TRUE
+            # offset is >= 65535, every field below 65535 is stored exactly, every field at or above it is
+            # stored modulo 2^16, and size / alignment (where stored) are right.  A wrong offset below 65535
+            # never gets this key.
+            size_align_right = d['d'] == 'object' or (got['size'] == want['size'] and got['align'] == want['align'])
+            if explained and max(want['offsets'] + [0]) >= 65535 and size_align_right \
+                    and len(got['offsets']) == len(want['offsets']) \
+                    and all(g == (w if w < 65535 else (w % 65536)) for g, w in zip(got['offsets'], want['offsets'])):
+                key = K_OFF16
+        if key is not None:
+            self.cnt.hit('%s:known-finding:%s:%s' % (label, key.split(':')[0], d['d']))
+            if 'grid' in d:
+                self.grid_cells[tuple(d['grid'])] = 'known finding ' + key
+            return ctx.report_failure(key, what, rep)
         ctx.report_failure('layout:' + key_of(b, d), what, rep)
 
 
@@ -963,6 +1155,48 @@ def kind_label(b, t):
     return k
 
 
+ENUM_EDGE_VALUES = set([127, 128, 255, 256, 32767, 32768, 65535, 65536, INT32_MAX, 2 ** 31, UINT32_MAX,
+                        -1, -127, -128, -129, -32768, -32769, INT32_MIN])
+
+
+def array_labels(t):
+    out = []
+    while t['k'] == 'array':
+        n = t['n']
+        out.append('array-length:' + ('0' if n == 0 else '1' if n == 1 else '2..7' if n < 8 else '8..65534' if n < 65535
+                                      else '>=65535'))
+        t = t['of']
+    return out
+
+
+def nest_paths(b, name, memo):
+    """the chains of compound kinds (S struct, U union, B boxed, O class; 'A' marks "through an array")
+    reachable by value from declaration `name`, each as a tuple starting with its own letter; cut at
+    length 5"""
+    if name in memo:
+        return memo[name]
+    d = b.by_name.get(name)
+    letter = {'struct': 'S', 'union': 'U', 'boxed': 'B', 'object': 'O'}.get(d and d['d'])
+    if letter is None:
+        return set()
+    memo[name] = set([(letter,)])          # cycle guard (cyclic declarations are never judged)
+    res = set([(letter,)])
+    for m in d['members']:
+        t = m['t']
+        arr = False
+        while t['k'] == 'array':
+            arr = True
+            t = t['of']
+        if t['k'] == 'iface' or (t['k'] == 'basic' and t['n'] in b.by_name):
+            tgt = resolve_alias(b, t['name'] if t['k'] == 'iface' else t['n'])
+            for p in nest_paths(b, tgt, memo):
+                if p:
+                    q = (letter,) + ((('A' + p[0]),) + p[1:] if arr else p)
+                    res.add(q[:5])
+    memo[name] = res
+    return res
+
+
 def deps_of(b, names):
     """the declarations `names` depend on (by name), in batch order"""
     need = set()
@@ -992,14 +1226,17 @@ def deps_of(b, names):
     return [d for d in b.decls if d['name'] in need]
 
 
+STRIP_KEYS = ('cls', 'seq', 'no_nest', 'grid')
+
+
 def dump_batch(b, names=None):
     decls = b.decls if names is None else deps_of(b, names)
-    return {'ns': b.ns, 'decls': [dict((k, v) for k, v in d.items() if k not in ('cls', 'seq', 'no_nest')) for d in decls]}
+    return {'ns': b.ns, 'decls': [dict((k, v) for k, v in d.items() if k not in STRIP_KEYS) for d in decls]}
 
 
 def key_of(b, d):
     if d is None:
-        return json.dumps([dict((k, v) for k, v in x.items() if k not in ('cls', 'seq', 'no_nest')) for x in b.decls],
+        return json.dumps([dict((k, v) for k, v in x.items() if k not in STRIP_KEYS) for x in b.decls],
                           sort_keys=True)
     return json.dumps(dump_batch(b, [d['name']])['decls'], sort_keys=True)
 
@@ -1062,11 +1299,15 @@ def unioncb_batches(rng, n):
     return out
 
 
+ABORT_KINDS = ['void', 'self', 'unresolved', 'mutual', 'voidarray', 'nested-self', 'void-array0', 'void-array1',
+               'unresolved-array', 'void-in-union', 'void-in-object', 'void-in-boxed', 'nested-void', 'array-of-nested-void']
+
+
 def abort_batches(rng, n):
     """declarations on which the tool must not record a positive layout: it may stop loudly"""
     out = []
     for i in range(n):
-        kind = ['void', 'self', 'unresolved', 'mutual', 'voidarray', 'nested-self'][i % 6]
+        kind = ABORT_KINDS[i % len(ABORT_KINDS)]
         pre = [{'name': 'a', 't': {'k': 'basic', 'n': rng.choice(BASIC_VALUE)}}]
         post = [{'name': 'z', 't': {'k': 'basic', 'n': rng.choice(BASIC_VALUE)}}]
         if kind == 'void':
@@ -1082,11 +1323,41 @@ def abort_batches(rng, n):
         elif kind == 'voidarray':
             decls = [{'d': 'struct', 'name': 'S1',
                       'members': pre + [{'name': 'v', 't': {'k': 'array', 'n': 3, 'of': {'k': 'void'}}}] + post}]
-        else:
+        elif kind == 'nested-self':
             decls = [{'d': 'struct', 'name': 'S1', 'members': pre + [{'name': 'me', 't': {'k': 'array', 'n': 2, 'of': {'k': 'self', 'name': 'S1'}}}]},
                      {'d': 'struct', 'name': 'S2', 'members': [{'name': 'in', 't': {'k': 'self', 'name': 'S1'}}] + post}]
+        elif kind in ('void-array0', 'void-array1', 'unresolved-array'):
+            # arrays whose ELEMENT has no known size (length 0 and 1 included: n * unknown is unknown)
+            el = {'k': 'unresolved'} if kind == 'unresolved-array' else {'k': 'void'}
+            n = {'void-array0': 0, 'void-array1': 1}.get(kind, rng.choice([0, 1, 4]))
+            decls = [{'d': rng.choice(['struct', 'union']), 'name': 'S1',
+                      'members': pre + [{'name': 'v', 't': {'k': 'array', 'n': n, 'of': el}}] + post}]
+        elif kind in ('void-in-union', 'void-in-object', 'void-in-boxed'):
+            decls = [{'d': kind.split('-')[-1], 'name': 'S1', 'members': pre + [{'name': 'v', 't': {'k': 'void'}}] + post}]
+        else:
+            # the unknown-size member sits one or two levels down: by value, and as an array element
+            inner = {'d': rng.choice(['struct', 'union']), 'name': 'S1', 'members': pre + [{'name': 'v', 't': {'k': 'void'}}]}
+            via = {'k': 'iface', 'name': 'S1'}
+            if kind == 'array-of-nested-void':
+                via = {'k': 'array', 'n': rng.choice([0, 1, 3]), 'of': via}
+            decls = [inner,
+                     {'d': rng.choice(['struct', 'union']), 'name': 'S2', 'members': [{'name': 'in', 't': via}] + post},
+                     {'d': 'struct', 'name': 'S3', 'members': pre + [{'name': 'deep', 't': {'k': 'iface', 'name': 'S2'}}]}]
         out.append(Batch('A%d' % i, decls))
+        out[-1].tag = kind
     return out
+
+
+def grid_summary(total, cells):
+    kinds = sorted(set(k for k, _c in total))
+    ctxs = sorted(set(c for _k, c in total), key=lambda c: (len(c), c))
+    not_equal = sorted('%s in %s: %s' % (k, c, cells.get((k, c), 'not judged')) for k, c in total
+                       if cells.get((k, c)) != 'equal-to-gcc')
+    return {'what': 'every member kind x nesting context (outermost first; S struct{gint8;X;gint8}, U union{gint16;X}, '
+                    'A struct{gint8;X[2];gint8}), each compared with gcc',
+            'kinds': kinds, 'contexts': ctxs, 'cells': len(total),
+            'cells_equal_to_gcc': sum(1 for v in cells.values() if v == 'equal-to-gcc'),
+            'cells_not_equal_or_not_judged': not_equal[:60]}
 
 
 def run(ctx):
@@ -1130,9 +1401,16 @@ def run(ctx):
     ctx.log('corpus done (%d batches)' % len(corpus))
 
     # ---- declarations that must stop the tool (or be recorded unknown)
-    ab = abort_batches(rng, ctx.n(12, 60))
+    ab = abort_batches(rng, ctx.n(2 * len(ABORT_KINDS), 6 * len(ABORT_KINDS)))
     R.run(ab, 'unknown')
     R.run(unioncb_batches(rng, ctx.n(4, 20)), 'unioncb')
+
+    # ---- deterministic grid: member kind x nesting context, enumerations at the storage boundaries
+    gb = grid_batches(ctx.n(3, 4))
+    grid_total = set(tuple(d['grid']) for b in gb for d in b.decls if 'grid' in d)
+    for i in range(0, len(gb), 48):
+        R.run(gb[i:i + 48], 'grid')
+    ctx.log('grid done (%d cells in %d namespaces)' % (len(grid_total), len(gb)))
 
     # ---- structured stream
     n_decl = ctx.n(420, 20000)
@@ -1183,6 +1461,7 @@ def run(ctx):
         'namespaces_compiled': len(batches) + len(pb) + len(ab) + len(corpus),
         'namespaces_where_compiler_stopped': R.aborted_batches,
         'pending_findings': [p['key'] for p in PENDING_FINDINGS],
+        'grid': grid_summary(grid_total, R.grid_cells),
     })
     ctx.coverage['trusted_base'] = [
         'Lean 4.33.0 kernel (theorems re-checked by `lake build` on every run)',
